@@ -113,11 +113,24 @@ def stage_walk(ctx, st):
         cfg = tier_val(alt["cfg"], ctx.tier)
         wd = vlib.scratch(f"{ctx.prop}-{name}-{alt['name']}")
         vlib.stage_specs(wd)
-        r = tlc_or_die(st["module"], cfg, wd, workers=st.get("dump_workers", 4), timeout=tier_val(st.get("tlc_timeout", 900), ctx.tier), what="exhaustive + edge dump")
         graph = os.path.join(wd, "graph.json")
-        gi = vlib.build_graph(r["out"], st["module"], graph)
-        os.unlink(r["out"])
-        log(f"[{ctx.prop}] TLC {st['module']}/{cfg}: {r['generated']} generated, {r['distinct']} distinct; graph {gi['states']} states {gi['edges']} edges {gi['init']} init; {r['wall_s']:.1f}s")
+        cache = getattr(ctx, "_graph_cache", None)
+        if cache is None:
+            cache = ctx._graph_cache = {}
+        if (st["module"], cfg) in cache:   # an earlier stage of this run dumped the same configuration
+            cpath, r, gi = cache[(st["module"], cfg)]
+            os.link(cpath, graph)
+            log(f"[{ctx.prop}] graph of {st['module']}/{cfg} reused ({gi['states']} states {gi['edges']} edges)")
+        else:
+            r = tlc_or_die(st["module"], cfg, wd, workers=st.get("dump_workers", 4), timeout=tier_val(st.get("tlc_timeout", 900), ctx.tier), what="exhaustive + edge dump")
+            gi = vlib.build_graph(r["out"], st["module"], graph)
+            os.unlink(r["out"])
+            log(f"[{ctx.prop}] TLC {st['module']}/{cfg}: {r['generated']} generated, {r['distinct']} distinct; graph {gi['states']} states {gi['edges']} edges {gi['init']} init; {r['wall_s']:.1f}s")
+            if st.get("share_graph"):
+                cdir = vlib.scratch(f"{ctx.prop}-graphcache-{len(cache)}")
+                cpath = os.path.join(cdir, "graph.json")
+                os.link(graph, cpath)
+                cache[(st["module"], cfg)] = (cpath, r, gi)
         out = os.path.join(wd, "walk_result.json")
         env = dict(VERIF_GRAPH=graph, VERIF_OUT=out, VERIF_SEED=ctx.seed, VERIF_BUDGET_S=budget,
                    VERIF_MAXWALK=st.get("maxwalk", 64), VERIF_TIER=ctx.tier, VERIF_ALT=alt["name"])
